@@ -278,7 +278,7 @@ def run_check(ctx):
     ctx.extra["table_cells"] = len(cells)
     n, ns = (12000, 12) if ctx.tier == "thorough" else (480, 8)
     progcheck.run_gen(ctx, "C02", TREE_FEATURES | enable, n, ns, depth=4, nest=0, lo=1, hi=3,
-                      nontrivial=progcheck.judged_twice)
+                      nontrivial=progcheck.judged_twice, native_all=(ctx.tier == "thorough"))
 
 
 def replay(rep):
